@@ -13,7 +13,7 @@ import (
 // exact duplicates); every produced operation is recorded in the case so that a replay needs no generator.
 func c14gen(c *hx.Ctx, i int) (*c14case, func(r *c14run, k int) *c14op) {
 	rng := c.Rng
-	flavour := []string{"plain", "plain", "priogas", "ceremony", "ceremony", "gas", "sync", "plain", "ceremony", "gas"}[i%10]
+	flavour := []string{"plain", "plain", "priogas", "ceremony", "ceremony", "gas", "sync", "drain", "ceremony", "gas"}[i%10]
 	if i%40 == 26 {
 		flavour = "flood"
 	}
@@ -57,6 +57,48 @@ func c14gen(c *hx.Ctx, i int) (*c14case, func(r *c14run, k int) *c14op) {
 		cs.Cfg = c14cfg{ES: -1, QS: -1, AEL: 0, AQL: 0, RIC: cs.Cfg.RIC}
 		cs.Ceremony, cs.Net = 70, 0
 		nOps = 18 + rng.Intn(14)
+	}
+	var script []c14op
+	if flavour == "drain" {
+		// victims hold: a current-epoch tx the next block includes, a second one that the balance drop makes
+		// unaffordable (non-nonce failure at the reset), sometimes one behind it, and accepted NEXT-epoch transactions
+		// (pending; their nonces restart at 1) which must survive that reset
+		cs.NS = 2 + rng.Intn(3)
+		cs.Cand, cs.Bal = nil, nil
+		cs.Cfg = c14cfg{ES: -1, QS: -1, AEL: 0, AQL: 0, RIC: cs.Cfg.RIC}
+		cs.Ceremony, cs.Net = 0, 0
+		for s := 0; s < cs.NS; s++ {
+			cs.Cand = append(cs.Cand, false)
+			victim := s == 1 || rng.Intn(2) == 0
+			if !victim {
+				cs.Bal = append(cs.Bal, 100000)
+				continue
+			}
+			cs.Bal = append(cs.Bal, 50)
+			var mine []c14op
+			mine = append(mine, c14op{K: "ext", To: "ab", Tx: &c14tx{S: s, N: 1, Ty: types.SendTx, Fee: 10, Amt: 25}})
+			mine = append(mine, c14op{K: "ext", To: []string{"b", "ab"}[rng.Intn(2)], Tx: &c14tx{S: s, N: 2, Ty: types.SendTx, Fee: 10, Amt: 25}})
+			if rng.Intn(2) == 0 {
+				mine = append(mine, c14op{K: "ext", To: "b", Tx: &c14tx{S: s, N: 3, Ty: types.SendTx, Fee: 10, Amt: 1}})
+			}
+			for n := uint32(1); n <= 3; n++ {
+				if rng.Intn(3) > 0 {
+					op := c14op{K: "ext", To: "b", Mp: rng.Intn(6) == 0, Tx: &c14tx{S: s, N: n, E: 1, Ty: types.SendTx, Fee: 10, Amt: 1}}
+					if rng.Intn(4) == 0 {
+						op.K, op.To, op.Mp = "int", "", false
+					}
+					// anywhere after the first current-epoch submission
+					at := 1 + rng.Intn(len(mine))
+					mine = append(mine[:at], append([]c14op{op}, mine[at:]...)...)
+				}
+			}
+			script = append(script, mine...)
+		}
+		script = append(script, c14op{K: "mine", Dt: 20})
+		if rng.Intn(2) == 0 {
+			script = append(script, c14op{K: "build"})
+		}
+		nOps = len(script) + 4 + rng.Intn(12)
 	}
 	if flavour == "flood" {
 		cs.NS = 3
@@ -176,6 +218,8 @@ func c14gen(c *hx.Ctx, i int) (*c14case, func(r *c14run, k int) *c14op) {
 			default:
 				op = c14op{K: "ext", To: "b", Mp: k%7 == 0, Tx: &c14tx{S: 1 + k%2, N: uint32(k/2 + 1), Ty: types.SendTx, Fee: 10, Amt: 1}}
 			}
+		} else if k < len(script) {
+			op = script[k]
 		} else if flavour == "priogas" {
 			switch {
 			case k < 3:
